@@ -47,6 +47,10 @@ type tqCase struct {
 	// usable actions {0 no expiry, 1 expires_at in an hour, 2 expires_in 3600, 3 expires_in 3600 beside a past expires_at}
 	ExpStyle int `json:"exp_style,omitempty"`
 	OkStyle  int `json:"ok_style,omitempty"`
+	// the producer pauses after its k-th Add (k = AddGapAfter > 0) for AddGapMs: what it adds afterwards
+	// meets the queue in whatever state the first batches have left it (e.g. given up on a missing file)
+	AddGapAfter int `json:"add_gap_after,omitempty"`
+	AddGapMs    int `json:"add_gap_ms,omitempty"`
 }
 
 func (tc tqCase) size(i int) int64 {
@@ -426,6 +430,9 @@ func runTqCase(tc tqCase, workdir string) *tqObs {
 			}
 			q.Add(fmt.Sprintf("name-%d", i), paths[i], tqOid(i), tc.size(i), missing, nil)
 			added <- k + 1
+			if tc.AddGapAfter > 0 && k+1 == tc.AddGapAfter {
+				time.Sleep(time.Duration(tc.AddGapMs) * time.Millisecond)
+			}
 		}
 		close(added)
 	}()
